@@ -115,28 +115,37 @@ static const char *float_check(double d, uint64_t bits, const char *hex)
 }
 
 /* ---- observers through the public API */
-static bool cnt_list_cb(void *arg, struct JsonValue *e) { (*(long *)arg)++; return true; }
-static bool cnt_dict_cb(void *arg, struct JsonValue *k, struct JsonValue *v) { (*(long *)arg)++; return true; }
+/* an iteration that visits more than this many elements is reported as endless (a sibling
+ * chain that loops can only come from a broken attach discipline) instead of hanging */
+#define ITER_CAP 2000000
+static bool cnt_list_cb(void *arg, struct JsonValue *e) { return ++(*(long *)arg) <= ITER_CAP; }
+static bool cnt_dict_cb(void *arg, struct JsonValue *k, struct JsonValue *v) { return ++(*(long *)arg) <= ITER_CAP; }
 
 static void print_size_iter(struct JsonValue *v)
 {
 	long n = 0;
+	bool ok;
 	printf("sz=%zu it=", json_value_size(v));
-	if (v && json_value_is_list(v) && json_list_iter(v, cnt_list_cb, &n)) printf("%ld", n);
-	else if (v && json_value_is_dict(v) && json_dict_iter(v, cnt_dict_cb, &n)) printf("%ld", n);
-	else printf("-");
+	if (v && json_value_is_list(v)) ok = json_list_iter(v, cnt_list_cb, &n);
+	else if (v && json_value_is_dict(v)) ok = json_dict_iter(v, cnt_dict_cb, &n);
+	else { printf("-"); return; }
+	if (n > ITER_CAP) printf("endless");
+	else if (!ok) printf("-");
+	else printf("%ld", n);
 }
 
 /* cycle check: depth-first over the iterators with the current path */
 #define MAXDEPTH 4096
 static struct JsonValue *path[MAXDEPTH];
 static int pathlen;
+static long visited;
 static bool acyclic(struct JsonValue *v);
 static bool acy_list_cb(void *arg, struct JsonValue *e) { return acyclic(e); }
 static bool acy_dict_cb(void *arg, struct JsonValue *k, struct JsonValue *e) { return acyclic(e); }
 static bool acyclic(struct JsonValue *v)
 {
 	bool ok = true;
+	if (++visited > ITER_CAP) return false;
 	if (!json_value_is_list(v) && !json_value_is_dict(v)) return true;
 	for (int i = 0; i < pathlen; i++) if (path[i] == v) return false;
 	if (pathlen >= MAXDEPTH) return false;
@@ -239,14 +248,14 @@ int main(void)
 			print_size_iter(a); putchar('\n');
 		} else if (!strcmp(w[0], "render") && n == 2 && slot_arg(w[1], &a) && a) {
 			struct MBuf mb;
-			pathlen = 0;
+			pathlen = 0; visited = 0;
 			if (!acyclic(a)) { puts("cyclic"); continue; }
 			mbuf_init_dynamic(&mb);
 			if (json_render(&mb, a)) { printf("r "); hc_puthex(mbuf_data(&mb), mbuf_written(&mb)); putchar('\n'); }
 			else puts("fail");
 			mbuf_free(&mb);
 		} else if (!strcmp(w[0], "dump") && n == 2 && slot_arg(w[1], &a) && a) {
-			pathlen = 0;
+			pathlen = 0; visited = 0;
 			if (!acyclic(a)) { puts("cyclic"); continue; }
 			printf("v "); dump(a); putchar('\n');
 		} else if (!strcmp(w[0], "rt") && n == 2 && slot_arg(w[1], &a) && a) {
@@ -254,7 +263,7 @@ int main(void)
 			struct JsonValue *v2;
 			char *doc;
 			size_t len;
-			pathlen = 0;
+			pathlen = 0; visited = 0;
 			if (!acyclic(a)) { puts("cyclic"); continue; }
 			mbuf_init_dynamic(&mb);
 			if (!json_render(&mb, a)) { puts("rt-fail"); mbuf_free(&mb); continue; }
